@@ -81,6 +81,9 @@ fn one(rep: &mut Reporter, seed: u64, thorough: bool) {
     let mut last_ts: BTreeMap<(usize, u8, usize), u64> = BTreeMap::new();
     let nsteps = 25 + rng.usize(if thorough { 70 } else { 30 });
     let mut relays_seen = 0u64;
+    // planned bursts: several versions of one announcer's inventory, one delivery per step, no clock
+    // movement in between (so they all fall into one gossip interval)
+    let mut plan: std::collections::VecDeque<(usize, usize)> = Default::default(); // (announcer, inventory size)
     // most cases start with every peer connected and known
     if rng.chance(3, 4) {
         for p in 0..nrem {
@@ -97,7 +100,23 @@ fn one(rep: &mut Reporter, seed: u64, thorough: bool) {
 
     for step in 0..nsteps {
         let now_ms = node.service.clock().as_millis() as u64;
-        let choice = rng.below(100);
+        let forced = plan.pop_front();
+        let choice = if forced.is_some() { 99 } else { rng.below(100) };
+        if forced.is_none() && rng.chance(1, 12) {
+            // schedule a burst for the following steps
+            let x = rng.usize(remotes.len());
+            let pat: &[usize] = match rng.below(5) {
+                0 => &[1, 0, 0],
+                1 => &[0, 0],
+                2 => &[2, 0, 0, 0],
+                3 => &[1, 1, 0, 0],
+                _ => &[0, 1, 0, 0],
+            };
+            for n in pat {
+                plan.push_back((x, (*n).min(rids.len())));
+            }
+            rep.count("fed.inventory-burst");
+        }
         let mut subscriber: Option<usize> = None;
         let desc: Value;
         let res = guarded(|| -> Value {
@@ -139,7 +158,7 @@ fn one(rep: &mut Reporter, seed: u64, thorough: bool) {
                     let from = *rng.pick(&conn);
                     // replay an earlier announcement (same or other deliverer)? Half of the time the most
                     // recent one, so that several peers deliver it before the next gossip tick.
-                    if !all_anns.is_empty() && rng.chance(1, 3) {
+                    if forced.is_none() && !all_anns.is_empty() && rng.chance(1, 3) {
                         let a = if rng.bool() { all_anns.last().unwrap().clone() } else { rng.pick(&all_anns).clone() };
                         delivered.entry(bytes_of(&a)).or_default().push(Received { step, from, now_ms });
                         if authentic(&a) && key_of(&a).1 == 0 && *a.timestamp() <= now_ms + 3_600_000 {
@@ -148,11 +167,11 @@ fn one(rep: &mut Reporter, seed: u64, thorough: bool) {
                         node.service.received_message(remotes[from].nid, a.clone().into());
                         return json!({"redeliver": {"from": from, "announcer": nid_index.get(&a.node), "ts": *a.timestamp()}});
                     }
-                    let announcer = if rng.chance(1, 2) { from } else { rng.usize(remotes.len()) };
-                    let kind = rng.below(3) as u8;
+                    let announcer = if let Some((x, _)) = forced { x } else if rng.chance(1, 2) { from } else { rng.usize(remotes.len()) };
+                    let kind = if forced.is_some() { 1 } else { rng.below(3) as u8 };
                     let ridx = rng.usize(rids.len());
                     let prev = last_ts.get(&(announcer, kind, if kind == 2 { ridx } else { 0 })).copied().unwrap_or(now_ms.saturating_sub(5_000));
-                    let (ts, tclass) = match rng.below(12) {
+                    let (ts, tclass) = match if forced.is_some() { 11 } else { rng.below(12) } {
                         0 => (prev.saturating_sub(1 + rng.below(10_000)).max(1), "older"),
                         1 => (prev.max(1), "equal"),
                         2 => (now_ms + 59 * 60_000, "+59min"),
@@ -162,12 +181,22 @@ fn one(rep: &mut Reporter, seed: u64, thorough: bool) {
                         6 => (now_ms.saturating_sub(2 * 3_600_000).max(1), "2h-old"),
                         _ => (prev + 1 + rng.below(3_000), "newer"),
                     };
+                    let mut empty_inv = false;
                     let mut a = match kind {
                         0 => remotes[announcer].node_announcement(ts),
-                        1 => remotes[announcer].inventory_announcement(ts, &rids[..1 + rng.usize(rids.len())]),
+                        1 => {
+                            // a third of the inventories are empty: a newer empty inventory of a node whose
+                            // inventory is already empty is stored but changes no route (not relayed at once,
+                            // only with the next gossip tick)
+                            let n = if let Some((_, n)) = forced { n } else if rng.chance(1, 3) { 0 } else { 1 + rng.usize(rids.len()) };
+                            if n == 0 {
+                                empty_inv = true;
+                            }
+                            remotes[announcer].inventory_announcement(ts, &rids[..n])
+                        }
                         _ => remotes[announcer].refs_announcement(ts, rids[ridx], vec![radicle::storage::refs::RefsAt { remote: remotes[announcer].nid, at: svc::oid(&mut rng) }]),
                     };
-                    let sclass = match rng.below(16) {
+                    let sclass = match if forced.is_some() { 15 } else { rng.below(16) } {
                         0 => {
                             // forged: signed by somebody else
                             let other = (announcer + 1) % remotes.len();
@@ -195,7 +224,7 @@ fn one(rep: &mut Reporter, seed: u64, thorough: bool) {
                     all_anns.push(a.clone());
                     delivered.entry(bytes_of(&a)).or_default().push(Received { step, from, now_ms });
                     node.service.received_message(remotes[from].nid, a.into());
-                    json!({"deliver": {"from": from, "announcer": announcer, "kind": (["node", "inventory", "refs"][kind as usize]), "ts": ts, "ts_class": tclass, "signature": sclass}})
+                    json!({"deliver": {"from": from, "announcer": announcer, "kind": (["node", "inventory", "refs"][kind as usize]), "empty_inventory": empty_inv, "ts": ts, "ts_class": tclass, "signature": sclass}})
                 }
             }
         });
@@ -210,6 +239,9 @@ fn one(rep: &mut Reporter, seed: u64, thorough: bool) {
         if let Some(d) = desc.get("deliver") {
             rep.count(&format!("fed.ts:{}", d["ts_class"].as_str().unwrap()));
             rep.count(&format!("fed.sig:{}", d["signature"].as_str().unwrap()));
+            if d["empty_inventory"] == json!(true) {
+                rep.count("fed.empty-inventory");
+            }
         }
         if desc.get("redeliver").is_some() {
             rep.count("fed.redelivery");
